@@ -383,6 +383,17 @@ func emptyGroupGivenToWith(kind int) (evals int, viols []vcommon.Violation) {
 		{`With(Group("e"), k=1)`, func(l *logger.Logger) *logger.Logger { return l.With(e, "k", 1) }, []any{e, "k", 1}},
 		{`With(k=1, Group("e"))`, func(l *logger.Logger) *logger.Logger { return l.With("k", 1, e) }, []any{"k", 1, e}},
 		{`With(Group("e", Group("f")))`, func(l *logger.Logger) *logger.Logger { return l.With(ef) }, []any{ef}},
+		{`With(route={)`, func(l *logger.Logger) *logger.Logger { return l.With("route", "{") }, []any{"route", "{"}},
+		{`With(route=})`, func(l *logger.Logger) *logger.Logger { return l.With("route", "}") }, []any{"route", "}"}},
+		{`With(route=/v1/items/{id)`, func(l *logger.Logger) *logger.Logger { return l.With("route", "/v1/items/{id") }, []any{"route", "/v1/items/{id"}},
+		{`With(route=}{)`, func(l *logger.Logger) *logger.Logger { return l.With("route", "}{") }, []any{"route", "}{"}},
+		{`With(route=[)`, func(l *logger.Logger) *logger.Logger { return l.With("route", "[") }, []any{"route", "["}},
+		{`With(route=")`, func(l *logger.Logger) *logger.Logger { return l.With("route", "\"") }, []any{"route", "\""}},
+		{`With(route=\\)`, func(l *logger.Logger) *logger.Logger { return l.With("route", "\\") }, []any{"route", "\\"}},
+		{`With(route=a,b)`, func(l *logger.Logger) *logger.Logger { return l.With("route", "a,b") }, []any{"route", "a,b"}},
+		{`With(route=:)`, func(l *logger.Logger) *logger.Logger { return l.With("route", ":") }, []any{"route", ":"}},
+		{`With(route={"k":1})`, func(l *logger.Logger) *logger.Logger { return l.With("route", "{\"k\":1}") }, []any{"route", "{\"k\":1}"}},
+		{`With(Group("{g", k=1))`, func(l *logger.Logger) *logger.Logger { return l.With(slog.Group("{g", "k", 1)) }, []any{slog.Group("{g", "k", 1)}},
 	}
 	for _, cx := range ctxs {
 		for _, cs := range cases {
